@@ -281,8 +281,11 @@ def emit_case(case, child=child_cmd_default, shell_child=lambda t: 'true ' + t, 
     L = em.lines
     actor = case['actor']
     act_site = ('act', 0)
-    if actor in ('file', 'source', 'null'):
+    status = case.get('status', 'PASS')
+    if actor in ('file', 'source', 'null') or status != 'PASS':
         L.append('[conf]')
+    if status != 'PASS':
+        L.append('status = ' + status)
     # the tags of setup-defined programs used later must be created at the use site: two passes
     uses = {}
     for ph in PH:
@@ -486,24 +489,49 @@ ID_RE = re.compile(r'^(PASS|FAIL|HARD_ERROR|INTERNAL_ERROR|VALIDATION_ERROR|SYNT
                    r'FILE_ACCESS_ERROR|PRE_PROCESS_ERROR|INVALID_USAGE)\s*$', re.M)
 
 
+FULL_IDS = ('PASS', 'FAIL', 'HARD_ERROR', 'INTERNAL_ERROR', 'VALIDATION_ERROR', 'SYNTAX_ERROR', 'SKIPPED', 'XFAIL', 'XPASS')
+MODE_COQ = {'PASS': 'TPass', 'FAIL': 'TFail', 'SKIP': 'TSkip'}
+
+
 def parse_verdict(exit_code, out, err, em):
-    """-> (failure | None, raw identifier): failure = (phase, idx, status constructor)"""
+    """-> (site | None, printed identifier | None, display): the exit identifier exactly as printed (None: nothing printed
+    and exit code 0, which is what --act does when nothing fails), the reported failing (phase, instruction)"""
     m = ID_RE.search(out) or ID_RE.search(err)
-    ident = m.group(1) if m else EXIT_TO_ID.get(exit_code, 'EXIT_%s' % exit_code)
-    if ident == 'PASS':
-        return None, ident
-    st = STATUS_OF_ID.get(ident)
-    if st is None:
-        return ('setup', 4998, 'FInternal'), ident  # unexpected identifier: shows up as a disagreement
+    printed = m.group(1) if m else None
+    display = printed or 'no identifier, exit code %s' % exit_code
+    if printed is None and exit_code == 0:
+        return None, None, display
+    if printed not in FULL_IDS:
+        return ('setup', 4998), 'INTERNAL_ERROR', display  # unexpected: shows up as a disagreement
+    if printed in ('PASS', 'XPASS', 'SKIPPED'):
+        return None, printed, display
     pm = re.search(r'^In \[([a-z-]+)\]', err, re.M)
     phase = pm.group(1) if pm else None
     if phase == 'act':
-        return ('act', 0, st), ident
+        return ('act', 0), printed, display
     lm = re.search(r', line (\d+)\s*$', err, re.M)
     site = em.line_site.get(int(lm.group(1))) if lm else None
     if phase not in PH_COQ or site is None or site[0] != phase:
-        return (phase if phase in PH_COQ else 'setup', 4999, st), ident
-    return (phase, site[1], st), ident
+        return (phase if phase in PH_COQ else 'setup', 4999), printed, display
+    return (phase, site[1]), printed, display
+
+
+def mk_obs(calls, site, printed, display, sandbox_left, **more):
+    o = {'calls': calls, 'failing_step_reported': site, 'identifier_printed': printed, 'ident': display,
+         'sandbox_left': sandbox_left, 'failure': site is not None or printed not in (None, 'PASS', 'XPASS', 'SKIPPED')}
+    o.update(more)
+    return o
+
+
+def c_moded(case, default, o, with_timeouts=True):
+    calls = ['(OCall %s %s %s)' % (PH_COQ[p], cnat(i), c_tmo(t) if with_timeouts else 'None') for (p, i, t) in o['calls']]
+    site = o['failing_step_reported']
+    return '(C19Moded %s %s %s %s %s %s %s %s)' % (
+        MODE_COQ[case.get('status', 'PASS')], c_tcase(case, default), cbool(case.get('opt') == '--keep'),
+        clist(calls) if calls else '(@nil ocall)',
+        'None' if site is None else '(Some (%s, %s))' % (PH_COQ[site[0]], cnat(site[1])),
+        'None' if o['identifier_printed'] is None else '(Some %s)' % o['identifier_printed'],
+        cbool(o['sandbox_left']), cbool(bool(o.get('status_only'))))
 
 
 def canonical_calls(records, em):
@@ -591,9 +619,8 @@ class InProc:
         left = self._left()
         if r.exception is not None:
             return em, None, 'exception escaped MainProgram.execute: %r' % (r.exception,)
-        failure, ident = parse_verdict(r.exit_code, r.out, r.err, em)
-        obs = {'calls': canonical_calls(rec.records, em), 'failure': failure, 'sandbox_left': bool(left), 'ident': ident,
-               'exit_code': r.exit_code}
+        site, printed, display = parse_verdict(r.exit_code, r.out, r.err, em)
+        obs = mk_obs(canonical_calls(rec.records, em), site, printed, display, bool(left), exit_code=r.exit_code)
         return em, obs, None
 
     def run_group(self, group):
@@ -636,11 +663,10 @@ class InProc:
             if ident is None:
                 out.append((em, None, 'the suite reporter shows no status for %s: %r' % (name, r.out[-600:])))
                 continue
-            st = STATUS_OF_ID.get(ident, 'FInternal') if ident != 'PASS' else None
             recs = [(n, t) for (n, t) in rec.records if owner.get(n) == j]
             stray = [(n, t) for (n, t) in rec.records if n not in owner]
-            obs = {'calls': canonical_calls(recs + stray, em), 'failure': None if st is None else ('setup', 0, st),
-                   'sandbox_left': bool(left), 'ident': ident, 'exit_code': r.exit_code, 'status_only': True}
+            obs = mk_obs(canonical_calls(recs + stray, em), None, ident if ident in FULL_IDS else 'INTERNAL_ERROR', ident,
+                         bool(left), exit_code=r.exit_code, status_only=True)
             out.append((em, obs, None))
         return out
 
@@ -749,6 +775,30 @@ def systematic_cases(quick):
                 if ph != 'cleanup':
                     c['phases']['cleanup'] = [MARK()]
                 out.append(c)
+    # the test-case status: an expiry is reported HARD_ERROR also under `status = FAIL` (only an assertion FAIL becomes XFAIL,
+    # only "nothing failed" becomes XPASS); SKIP as control (nothing runs)
+    kk = 0
+    for ph in PH:
+        kinds = [kd for kd, (n, phs) in KINDS.items() if ph in phs]
+        for kind in (kinds if not quick else kinds[kk % 2::2]):
+            n = KINDS[kind][0]
+            for status in ('FAIL', 'SKIP'):
+                c = empty_case(opt=[None, None, '--keep', '--act'][kk % 4])
+                kk += 1
+                c['status'] = status
+                c['phases'][ph] = [setv(2), spawn(kind, [3] + [0] * (n - 1)), MARK()]
+                if ph != 'cleanup':
+                    c['phases']['cleanup'] = [MARK()]
+                out.append(c)
+    for actor in ACTORS:
+        for opt in (None, '--act', '--keep'):
+            for (act_d, asserts) in ((3, []), (0, [plain('fail')]), (0, []), (0, [spawn('pct', [3])])):
+                c = empty_case(actor, act_d, opt)
+                c['status'] = 'FAIL'
+                c['phases']['setup'] = [setv(2)]
+                c['phases']['assert'] = list(asserts)
+                c['phases']['cleanup'] = [MARK()]
+                out.append(c)
     # boundary values of the timeout domain: 0 (a limit, NOT "no limit"), 1, large; written as literal / expression /
     # quoted expression / symbol reference; child needing exactly the limit (stays) and one second more (expires)
     forms = ['lit', 'expr', 'quoted', 'sym']
@@ -851,6 +901,7 @@ def random_case(rng):
                 c['phases'][ph].append(plain('fail' if ph == 'assert' and rng.chance(0.6) else 'hard'))
             elif ph == 'setup':
                 c['phases'][ph].append({'k': 'stdin', 'd': rng.choice([0, 1, 2, 4, 9])})
+    c['status'] = rng.weighted([('PASS', 15), ('FAIL', 4), ('SKIP', 1)])
     # programs defined by the first instructions of [setup] (so that the definition is always executed: a reference to a
     # symbol whose definition was not reached is the known defect of C08/C18, not this property), each used exactly once
     for n in range(rng.choice([0, 0, 1, 1, 2])):
@@ -908,6 +959,7 @@ def ways_items(ctx):
             for c in default_matters_cases():
                 c['way'], c['suite_setup'] = way, [dict(i) for i in ss]
                 c['opt'] = [None, None, '--act', '--keep'][k % 4]
+                c['status'] = ['PASS', 'FAIL', 'FAIL', 'PASS', 'SKIP'][k % 5]
                 k += 1
                 items.append(c)
         for _ in range(40 if ctx.quick else 400):
@@ -916,7 +968,14 @@ def ways_items(ctx):
             c['suite_setup'] = rng.choice([[], [], [setv(7)], [setv(None)], [setv(0)], [setv(3), setv(2 ** 31)]])
             items.append(c)
     dm = default_matters_cases
+    def with_status(cs, status):
+        for c in cs:
+            c['status'] = status
+        return cs
+
     items.append({'root': dm()[:3], 'sub': dm()[:3], 'root_setup': [], 'sub_setup': []})
+    items.append({'root': with_status(dm()[:3], 'FAIL'), 'sub': with_status(dm()[1:4], 'FAIL'), 'root_setup': [], 'sub_setup': [setv(7)]})
+    items.append({'root': with_status(dm()[:2], 'SKIP'), 'sub': with_status(dm()[3:], 'FAIL'), 'root_setup': [], 'sub_setup': []})
     items.append({'root': dm()[2:], 'sub': dm()[2:], 'root_setup': [setv(7)], 'sub_setup': []})
     items.append({'root': dm()[:2], 'sub': dm()[3:], 'root_setup': [], 'sub_setup': [setv(None)]})
     for _ in range(25 if ctx.quick else 250):
@@ -935,12 +994,12 @@ def ways_items(ctx):
 def is_nontrivial(case, obs):
     """a `timeout` instruction precedes a started process, or a process expired (some failure with HARD_ERROR) """
     has_set = any(i['k'] == 'set' for ph in PH for i in case['phases'][ph])
-    return bool(obs['calls']) and (has_set or obs['failure'] is not None)
+    return bool(obs['calls']) and (has_set or bool(obs['failure']))
 
 
 def case_desc(case):
     return {'actor': case['actor'], 'act_child_seconds': case['act_d'], 'option': case.get('opt'),
-            'way_of_running': case.get('way', 'standalone'),
+            'way_of_running': case.get('way', 'standalone'), 'status': case.get('status', 'PASS'),
             'setup_instructions_of_the_suite': [dict(i) for i in (case.get('suite_setup') or [])],
             'phases': {ph: [dict(i) for i in case['phases'][ph]] for ph in PH}}
 
@@ -1004,14 +1063,14 @@ def run_inproc(ctx, res, items, label):
                 res.prop_failures.append(Failure('property', {'case': d, 'file': text}, err))
                 continue
             terms, meta = status_only if obs.get('status_only') else full
-            terms.append('(C19Case %s %s %s)' % (c_tcase(case, default), cbool(case.get('opt') == '--keep'), c_obs(obs)))
+            terms.append(c_moded(case, default, obs))
             meta.append({'case': d, 'file': text, 'observed': obs, 'default_timeout': default})
-            res.count('%s: verdict %s' % (label, obs['ident']))
+            res.count('%s: status = %s -> %s' % (label, d['status'], obs['ident']))
             res.count('%s: way of running: %s%s' % (label, d['way_of_running'], ' ' + case['opt'] if case.get('opt') else ''))
             res.count('%s: processes started: %s' % (label, min(len(obs['calls']), 6)))
             if is_nontrivial(case, obs):
                 res.nontrivial.add(json.dumps(d, sort_keys=True))
-    for (terms, meta), fn, tg in ((full, 'check_c19', 'cases_'), (status_only, 'check_c19_status', 'suite_')):
+    for (terms, meta), fn, tg in ((full, 'check_c19_moded', 'cases_'), (status_only, 'check_c19_moded', 'suite_')):
         if not terms:
             continue
         cb, pb, errs = common.run_shards(PROP, IMPORTS, fn, terms, shard_size=300, tag=tg + label)
@@ -1019,7 +1078,8 @@ def run_inproc(ctx, res, items, label):
         for i in pb:
             res.prop_failures.append(Failure('property', meta[i],
                                              'observed behaviour violates C19: a process was not handed the timeout in force (the '
-                                             'default, or the value last set) / an expiry was not a HARD_ERROR of that step / cleanup '
+                                             'default, or the value last set) / an expiry was not reported HARD_ERROR at that step '
+                                             '(whatever the test-case status) / cleanup '
                                              'or sandbox removal missing / something else ran after the expiry'))
         for i in cb:
             res.disagreements.append(Failure('correspondence', meta[i], 'Model/Timeout.v texecute differs from the observed execution'))
@@ -1069,6 +1129,14 @@ def real_site_cases(ph, kind, actor, thorough):
     if ph != 'cleanup':
         z['phases']['cleanup'] = [setv(REAL_LIMIT)] + z['phases']['cleanup']
     out.append(z)
+    # `status = FAIL` in [conf]: the expiry is still reported HARD_ERROR (not XFAIL); SKIP as control: nothing runs
+    f = base(long_ds, [setv(REAL_LIMIT)], 'sleep')
+    f['status'] = 'FAIL'
+    out.append(f)
+    if ph == 'act' or thorough:
+        k = base(long_ds, [setv(REAL_LIMIT)], 'sleep')
+        k['status'] = 'SKIP'
+        out.append(k)
     if thorough:
         out.append(base([2] + [0] * (n - 1), [setv(REAL_LIMIT), setv(None)], 'sleep'))  # lifted: a 2 s child completes
         if ph != 'act':
@@ -1171,7 +1239,7 @@ class RealRunner:
                 pass
         left = [x for x in os.listdir(tmp) if x.startswith('exactly-')]
         recs = [(n, None) for (_, n, _, _) in starts]
-        failure, ident = (None, 'HUNG') if hung else parse_verdict(rc, out, err, em)
+        site_r, printed, display = (None, None, 'HUNG') if hung else parse_verdict(rc, out, err, em)
         # A child killed before it could write its start file (limit of 0 seconds: killed at once) was nevertheless
         # started: Exactly's report of the expiry ("Command '[... C19T<n>D<d> ...]' timed out after ...") names it.  It is
         # entered where the failing step is: before the processes of the cleanup phase that follow (at the end, if the
@@ -1179,6 +1247,10 @@ class RealRunner:
         inferred = []
         for m in re.finditer(r"^Command .*?C19T(\d+)D\d+.* timed out after", err, re.M):
             n = int(m.group(1))
+            if n in em.shell_tags and n in [x for (x, _) in recs]:
+                # KF-C19-1: the shell was killed, the command it forked lives on and may write its start file at any later
+                # moment (after cleanup's children, with a limit of 0 s): its place is where the expiry is reported
+                recs = [(x, t) for (x, t) in recs if x != n]
             if n not in [x for (x, _) in recs] and n not in inferred:
                 inferred.append(n)
         for n in inferred:
@@ -1190,9 +1262,9 @@ class RealRunner:
                         pos = i
                         break
             recs.insert(pos, (n, None))
-        obs = {'calls': canonical_calls(recs, em), 'failure': failure, 'sandbox_left': bool(left), 'ident': ident,
-               'exit_code': rc, 'wall_ms': int(wall * 1000), 'children_alive_afterwards': alive, 'hung': hung,
-               'started_inferred_from_expiry_report': inferred}
+        obs = mk_obs(canonical_calls(recs, em), site_r, printed, display, bool(left),
+                     exit_code=rc, wall_ms=int(wall * 1000), children_alive_afterwards=alive, hung=hung,
+                     started_inferred_from_expiry_report=inferred)
         shutil.rmtree(d, ignore_errors=True)
         return em, obs
 
@@ -1247,12 +1319,12 @@ def run_real(ctx, res):
         if only_shell_children_alive:
             res.prop_failures.append(Failure('property', m, 'the command started through the shell is still alive after Exactly '
                                                             'returned (the shell was killed, not the command)', finding=KF_SHELL))
-        terms.append('(C19Real %s %s %s %s %s)' % (c_tcase(case, default), cbool(keep), c_obs(obs, with_timeouts=False),
-                                                  cN(obs['wall_ms']), cbool(not alive or only_shell_children_alive)))
+        terms.append('(C19RealM %s %s %s)' % (c_moded(case, default, obs, with_timeouts=False), cN(obs['wall_ms']),
+                                              cbool(not alive or only_shell_children_alive)))
         meta.append(m)
-        res.count('real: child %s -> %s' % (case['real'], obs['ident']))
+        res.count('real: status = %s, child %s -> %s' % (d['status'], case['real'], obs['ident']))
         res.nontrivial.add('real ' + json.dumps(d, sort_keys=True))
-    cb, pb, errs = common.run_shards(PROP, IMPORTS, 'check_c19_real', terms, shard_size=300, tag='cases_real')
+    cb, pb, errs = common.run_shards(PROP, IMPORTS, 'check_c19_real_moded', terms, shard_size=300, tag='cases_real')
     res.errors += errs
     for i in pb:
         res.prop_failures.append(Failure('property', meta[i],
@@ -1316,7 +1388,8 @@ def replay(ctx, payload):
         print(json.dumps(payload, indent=1, default=str)[:4000])
         return 0
     case = {'actor': d['actor'], 'act_d': d['act_child_seconds'], 'opt': d.get('option'), 'phases': d['phases'],
-            'way': d.get('way_of_running', 'standalone'), 'suite_setup': d.get('setup_instructions_of_the_suite') or []}
+            'way': d.get('way_of_running', 'standalone'), 'suite_setup': d.get('setup_instructions_of_the_suite') or [],
+            'status': d.get('status', 'PASS')}
     default = default_timeout()
     os.makedirs(ctx.work, exist_ok=True)
     if d.get('child'):
@@ -1345,13 +1418,14 @@ def replay(ctx, payload):
     print(em.text)
     print('implementation observed:', json.dumps(obs, default=str))
     keep = cbool(case.get('opt') == '--keep')
-    vals, out = common.coq_eval_terms(PROP, IMPORTS, ['model_obs %s %s' % (keep, c_tcase(case, default)),
-                                                     'P_C19 %s %s %s %s' % (cbool(not d.get('child')), keep, c_tcase(case, default),
-                                                                            c_obs(obs, with_timeouts=not d.get('child')))],
-                                      tag='replay')
+    real = bool(d.get('child'))
+    moded = c_moded(case, default, obs, with_timeouts=not real)
+    chk = ('check_c19_real_moded (C19RealM %s %s %s)' % (moded, cN(obs['wall_ms']), cbool(not obs['children_alive_afterwards']))
+           if real else 'check_c19_moded %s' % moded)
+    vals, out = common.coq_eval_terms(PROP, IMPORTS, ['model_obs %s %s' % (keep, c_tcase(case, default)), chk], tag='replay')
     if vals is None:
         print(out[-2000:])
         return 1
     print('model observation      :', vals[0])
-    print('property on the observed behaviour (P_C19):', vals[1])
-    return 0 if vals[1].strip() == 'true' else 1
+    print('(correspondence, property on the observed behaviour) for test-case status %s:' % case['status'], vals[1])
+    return 0 if vals[1].replace(' ', '') == '(true,true)' else 1
